@@ -49,3 +49,77 @@ def classify(job):
     except Exception as e:
         reid = -1
     return {"id": cid, "reid": reid, "exc": None}
+
+
+# ---------------------------------------------------------------------------------------------
+# circuit APIs
+# ---------------------------------------------------------------------------------------------
+def _snapshot_stab(st):
+    return (st.R.tobytes(), st.S.tobytes(), st.phases.tobytes(), st.R.dtype.str, st.num_qubits)
+
+
+def build_input(job):
+    """-> (object passed to the API, snapshot function)"""
+    lib = L()
+    n, codes, fmt = job["n"], job["codes"], job.get("fmt", "matrices")
+    if fmt == "graph":
+        g = lib.graph.Graph.decompress(n, job["graph"])
+        return lib.stabilizer.Stabilizer(g)
+    if fmt == "circuit":
+        return lib.stabilizer.Stabilizer(impl.circuit_from_gates(n, job["program"]))
+    return stab_from_codes(n, codes, fmt)
+
+
+def api_call(job):
+    """job: {"api": prep|readout|compress, "n", "conn", "codes", "fmt", ["program"], ["graph"], ["alt"]}
+    Returns the trace fields recorded from the real call (no judgement)."""
+    from . import wrap
+    lib = L()
+    wrap.install(lib)
+    sc = lib.stabilizer_circuits
+    api, n, conn = job["api"], job["n"], job["conn"]
+    out = {"gates": [], "cls": -1, "graph": -1, "cost": -1, "depth": -1, "layer": [], "unchanged": 1, "exc": None,
+           "alt": [], "hasalt": 0}
+    try:
+        if api == "compress":
+            arg = impl.circuit_from_gates(n, job["program"])
+            before = impl.gates_of(arg)
+        else:
+            arg = build_input(job)
+            before = _snapshot_stab(arg)
+    except Exception as e:
+        out["exc"] = "input:" + exc_name(e)
+        return out
+    wrap.begin()
+    try:
+        if api == "prep":
+            qc = sc.get_preparation_circuit(arg, conn)
+        elif api == "readout":
+            qc = sc.get_readout_circuit(arg, conn)
+        else:
+            qc = sc.compress_preparation_circuit(arg, conn)
+        out["gates"] = impl.gates_of(qc)
+        out["nq"] = qc.num_qubits
+    except Exception as e:
+        out["exc"] = exc_name(e)
+    for name, val in wrap.events():
+        if name == "determine_lc_class" and "id" in val:
+            out["cls"] = val["id"]
+        elif name == "stabilizer_circuit_lookup" and "graph" in val:
+            out.update(graph=val["graph"], cost=val["cost"], depth=val["depth"])
+        elif name == "find_local_clifford_layer":
+            if "blocks" in val and not val["offdiag"]:
+                out["layer"] = val["blocks"]
+            elif "blocks" in val:
+                out["layer"] = [[2, 2, 2, 2]] * n       # not block diagonal: an invalid layer for the spec
+    after = impl.gates_of(arg) if api == "compress" else _snapshot_stab(arg)
+    out["unchanged"] = 1 if after == before else 0
+    if api == "readout" and job.get("alt") is not None and out["exc"] is None:
+        try:
+            st2 = stab_from_codes(n, job["alt"], "matrices")
+            out["alt"] = impl.gates_of(sc.get_readout_circuit(st2, conn))
+            out["hasalt"] = 1
+        except Exception as e:
+            out["alt"] = [["!" + exc_name(e), -1, -1]]
+            out["hasalt"] = 1
+    return out
